@@ -1,6 +1,8 @@
 import CkbVerif.Driver.Util
 import CkbVerif.Model.Selector
 import CkbVerif.Model.Template
+import CkbVerif.Model.AssemblerSvc
+import CkbVerif.Gen.Template
 
 /-! Line-protocol driver for C13 (protocol: harness/n13/src/c13.rs). -/
 namespace CkbVerif.Driver.C13
@@ -9,11 +11,54 @@ open CkbVerif.Driver CkbVerif.Selector
 structure DSt where
   ents : List PEntry := []          -- reversed
   ties : List (Nat × Nat) := []
+  /-- consensus limits of the `cfg` line -/
+  cfg : CkbVerif.Rules.Cfg := {}
+  /-- the directly driven `CandidateUncles` (ops `cu-*`) -/
+  cu : CkbVerif.AssemblerSvc.CU := {}
 
 def DSt.view (s : DSt) : View :=
   View.ofLinks s.ents.reverse (fun id => match s.ties.find? (·.1 == id) with | some p => p.2 | none => 1000000000 + id)
 
 def sortNat (l : List Nat) : List Nat := sortBy (fun a b => decide (a < b)) l
+
+/-! ### `astep`: one real update path of the block assembler against `AssemblerSvc.gstep` -/
+open CkbVerif.Rules (Uncle) in
+/-- `a.b.c` or `_` -/
+def parseDotList? (s : String) : Option (List Nat) :=
+  if s = "_" then some [] else (s.splitOn ".").mapM parseNat?
+
+/-- one uncle `id:parent:number:epoch:target:flags:props`; flags = 8·is_main + 4·is_uncle + 2·parent_is_main + parent_is_uncle -/
+def parseUncle? (s : String) : Option (CkbVerif.Rules.Uncle × Nat) :=
+  match s.splitOn ":" with
+  | [id, par, num, ep, tg, fl, ps] =>
+    match parseNats? [id, par, num, ep, tg, fl], parseDotList? ps with
+    | some [id, par, num, ep, tg, fl], some ps =>
+      some ({ id := id, parent := par, number := num, epochNumber := ep, target := tg, proposals := ps }, fl)
+    | _, _ => none
+  | _ => none
+
+def parseUncles? (s : String) : Option (List (CkbVerif.Rules.Uncle × Nat)) :=
+  if s = "-" then some [] else (s.splitOn ";").mapM parseUncle?
+
+/-- `id:size:cycles,…` -/
+def parseTxs? (s : String) : Option (List Entry) :=
+  if s = "-" then some [] else
+  (s.splitOn ",").mapM fun t =>
+    match (t.splitOn ":").mapM parseNat? with
+    | some [id, size, cycles] => some ⟨id, size, cycles, 0, 0, 0, 0, 0⟩
+    | _ => none
+
+/-- rebuild the container from `values()` (ascending heights, one group per height) -/
+def cuOfValues (us : List CkbVerif.Rules.Uncle) : CkbVerif.AssemblerSvc.CU :=
+  let map := us.foldl (fun (acc : List (Nat × List CkbVerif.Rules.Uncle)) u =>
+    match acc.getLast? with
+    | some (k, set) => if k == u.number then acc.dropLast ++ [(k, set ++ [u])] else acc ++ [(u.number, [u])]
+    | none => [(u.number, [u])]) []
+  ⟨map, us.length⟩
+
+def showHeights (c : CkbVerif.AssemblerSvc.CU) : String :=
+  if c.map.isEmpty then "-" else
+  ";".intercalate (c.map.map fun p => s!"{p.1}:{".".intercalate ((sortNat (p.2.map (·.id))).map toString)}")
 
 def step (s : DSt) (ts : List String) : DSt × String :=
   match ts with
@@ -55,13 +100,74 @@ def step (s : DSt) (ts : List String) : DSt × String :=
       let parts := decide (t.sTxs = t.txsActual) && decide (t.sProposals = CkbVerif.Template.P * t.nProposals) && decide (t.sUncles = t.U * t.nUncles)
       (s, s!"total={b (decide (t.sTotal = t.actual))} parts={b parts} le={b (decide (t.actual ≤ t.max))} inv={b (decide (CkbVerif.Template.Inv t))}")
     | _ => (s, "bad-op")
+  | ["cfg", _, _, _, mb, mc, mp, mu, _, _] =>
+    match parseNats? [mb, mc, mp, mu] with
+    | some [mb, mc, mp, mu] => ({ s with cfg := { s.cfg with maxBytes := mb, maxCycles := mc, maxProposals := mp, maxUncles := mu } }, "ok")
+    | _ => (s, "bad-op")
+  | ["astep", kind, sameTip, uSize, tipN, ep, tg, base, sTxs, sProps, sUncles, sTotal, tUncles, tProps, tTxs, cands, pending, keep] =>
+    match parseNats? [kind, sameTip, uSize, tipN, ep, tg, base, sTxs, sProps, sUncles, sTotal],
+          parseUncles? tUncles, parseNatList? tProps, parseTxs? tTxs, parseUncles? cands, parseNatList? pending, parseNatList? keep with
+    | some [kind, sameTip, uSize, tipN, ep, tg, base, sTxs, sProps, sUncles, sTotal], some tUncles, some tProps, some tTxs, some cands, some pending, some keep =>
+      let tbl : List (Nat × Bool × Bool) := cands.flatMap fun (u, fl) =>
+        [(u.id, fl / 8 % 2 == 1, fl / 4 % 2 == 1), (u.parent, fl / 2 % 2 == 1, fl % 2 == 1)]
+      let snap : CkbVerif.Assembler.Snap :=
+        { tipNumber := tipN
+          isMain := fun h => match tbl.find? (·.1 == h) with | some x => x.2.1 | none => false
+          isUncle := fun h => match tbl.find? (·.1 == h) with | some x => x.2.2 | none => false }
+      let tip : CkbVerif.Assembler.Tip :=
+        { snap := snap, epochNumber := ep, target := tg, base := base, cbOutputs := 0, cbId := 0, cbWitnessOk := true, cbLockOk := true }
+      let t : CkbVerif.Assembler.Tmpl :=
+        { uncles := tUncles.map (·.1), proposals := tProps, txs := tTxs, sTxs := sTxs, sProposals := sProps, sUncles := sUncles, sTotal := sTotal }
+      let g : CkbVerif.AssemblerSvc.GSt := { a := ⟨tip, t⟩, tipId := 1, cu := cuOfValues (cands.map (·.1)) }
+      let poolTip := if sameTip == 1 then 1 else 2
+      let keepF : Entry → Bool := fun e => keep.contains e.id
+      let op : Option CkbVerif.AssemblerSvc.GOp :=
+        match kind with
+        | 0 => some (.reset tip 1)
+        | 1 => some (.full poolTip pending s.view keepF)
+        | 2 => some .uncles
+        | 3 => some (.proposals poolTip pending)
+        | 4 => some (.txs poolTip s.view keepF)
+        | _ => none
+      match op with
+      | none => (s, "bad-op")
+      | some op =>
+        let g' := CkbVerif.AssemblerSvc.gstep s.cfg uSize CkbVerif.Gen.Template.MAX_CANDIDATE_UNCLES CkbVerif.Gen.Template.MAX_PER_HEIGHT g op
+        let t' := g'.a.t
+        (s, s!"uncles={showNatList (t'.uncles.map (·.id))} props={showNatList (sortNat t'.proposals)} txs={showNatList (t'.txs.map (·.id))} size={t'.sTxs},{t'.sProposals},{t'.sUncles},{t'.sTotal} cands={showNatList (sortNat (g'.cu.values.map (·.id)))}")
+    | _, _, _, _, _, _, _ => (s, "bad-op")
+  | ["cellbase", fd, tipN, total, occ] =>
+    match parseNats? [fd, tipN, total, occ] with
+    | some [fd, tipN, total, occ] => (s, s!"outputs={CkbVerif.Assembler.cellbaseOutputs fd tipN total occ}")
+    | _ => (s, "bad-op")
+  | ["astep-stale", _] => (s, "stale")
+  | ["cu-new"] => ({ s with cu := {} }, "ok")
+  | ["cu-ins", id, num] =>
+    match parseNat? id, parseNat? num with
+    | some id, some num =>
+      let r := s.cu.insert CkbVerif.Gen.Template.MAX_CANDIDATE_UNCLES CkbVerif.Gen.Template.MAX_PER_HEIGHT
+        { id := id, parent := 0, number := num, epochNumber := 0, target := 0 }
+      ({ s with cu := r.1 }, s!"{if r.2 then 1 else 0} len={r.1.count}")
+    | _, _ => (s, "bad-op")
+  | ["cu-rm", id, num] =>
+    match parseNat? id, parseNat? num with
+    | some id, some num =>
+      let r := s.cu.removeByNumber { id := id, parent := 0, number := num, epochNumber := 0, target := 0 }
+      ({ s with cu := r.1 }, s!"{if r.2 then 1 else 0} len={r.1.count}")
+    | _, _ => (s, "bad-op")
+  | ["cu-has", id, num] =>
+    match parseNat? id, parseNat? num with
+    | some id, some num =>
+      (s, if s.cu.contains { id := id, parent := 0, number := num, epochNumber := 0, target := 0 } then "1" else "0")
+    | _, _ => (s, "bad-op")
+  | ["cu-vals"] => (s, showHeights s.cu)
   | ["select-stale", _, _] =>
     -- the dumped pool violates the theorems' hypotheses (see `hyp`): the implementation's result is
     -- HashSet-order dependent there; nothing to compare beyond the classification itself
     (s, "stale")
   | op :: _ =>
     -- scenario ops act on the real node only; their effect reaches the model through the dumps
-    if ["cfg", "submit", "wait", "template", "mine", "fork", "uncle", "make", "send", "propose"].contains op then (s, "ok") else (s, "bad-op")
+    if ["step", "submit", "wait", "template", "mine", "fork", "uncle", "make", "send", "propose"].contains op then (s, "ok") else (s, "bad-op")
   | _ => (s, "bad-op")
 
 def main (_args : List String) : IO UInt32 := runLines ({} : DSt) step
